@@ -101,10 +101,16 @@ void analyse(const std::string& prop) {
     (void)prop;
     std::map<int, Req> reqs;
     auto& evs = sim::events();
+    std::map<int, int> pending;   // simulated thread -> the request it is inside lock*() for (between E_ISSUE and E_ACQ)
     for (auto& e : evs) {
         switch (e.kind) {
-            case E_ISSUE: { auto& r = reqs[e.a]; r.rid = e.a; r.w = e.b & 1; r.res = e.b >> 1; r.issue = e.seq; r.tid = e.tid; break; }
-            case E_ACQ: reqs[e.a].acq = e.seq; break;
+            case E_ISSUE: { auto& r = reqs[e.a]; r.rid = e.a; r.w = e.b & 1; r.res = e.b >> 1; r.issue = e.seq; r.tid = e.tid; pending[e.tid] = e.a; break; }
+            case E_ACQ: reqs[e.a].acq = e.seq; pending.erase(e.tid); break;
+            case sim::EV_SLEEP: {   // an implementation that waits by sleeping / backing off inside lock*() "has started waiting" just as well
+                auto it = pending.find(e.tid);
+                if (it != pending.end() && it->second > 0 && it->second < TAG_BARRIER) { reqs[it->second].parks.push_back(e.seq); g_extra["probe_request_slept_inside_lock"]++; }
+                break;
+            }
             case E_REL_RET: reqs[e.a].rel_ret = e.seq; break;
             case sim::EV_PARK:
             case sim::EV_FUTEX_WAIT:   // an implementation that blocks through std::atomic::wait / a semaphore parks here
@@ -295,7 +301,8 @@ void run_convoy(const Json& prog) {
         // wait until this request is parked — or has entered and sits at the gate (possible after '|')
         sim::wait_until([&, id] {
             auto ti = sim::thread_info(id);
-            return ti.state == sim::T_BLK_COND || ti.state == sim::T_BLK_FUTEX || (ti.state == sim::T_BLK_PRED && ti.tag == TAG_BARRIER);
+            return ti.state == sim::T_BLK_COND || ti.state == sim::T_BLK_FUTEX || (ti.state == sim::T_BLK_PRED && ti.tag == TAG_BARRIER) ||
+                   (ti.state == sim::T_SLEEPING && ti.tag == rid);   // waits by sleeping inside lock*() (tag = its request id)
         });
     }
     if (controller_holds) {
@@ -409,14 +416,19 @@ void generate(sim::Rng& g, const std::string& prop, const std::string& tier, Jso
     int est = 100;
     if (convoy) {
         program.set("kind", "convoy");
-        int len = g.range(2, thorough ? 10 : 8);
-        double pw = prop == "C12" ? 0.15 : 0.5;
+        // deep convoys (C03): 10-16 arrivals, mostly writers, so the wait queue holds 8-15 entries when the holder leaves, and the
+        // release comes late, with one to three arrivals after it: state that only exists behind a long queue is reached on purpose
+        bool deep = prop == "C03" && g.below(5) == 0;
+        int len = deep ? g.range(10, thorough ? 16 : 14) : g.range(2, thorough ? 10 : 8);
+        double pw = deep ? 0.85 : prop == "C12" ? 0.15 : 0.5;
         std::string sc;
         int bars = 0;
         for (int i = 0; i < len; i++) {
             sc += g.chance(pw) ? 'W' : 'R';
-            if (bars < 1 && i + 1 < len && g.below(4) == 0) { sc += '|'; bars++; }
+            if (deep) { if (bars < 1 && i + 1 < len && i + 4 >= len && (i + 2 == len || g.below(2) == 0)) { sc += '|'; bars++; } }
+            else if (bars < 1 && i + 1 < len && g.below(4) == 0) { sc += '|'; bars++; }
         }
+        if (deep) program.set("deep", 1);
         program.set("script", sc).set("y", g.range(0, 1));
         est = 40 * len;
     } else if (batch) {
@@ -481,7 +493,7 @@ void execute(const Json& program, const sim::Config& cfg, const std::string& pro
     });
     analyse(prop);
     g_extra[batch ? (program.get("k", 0) > 200 ? "runs_crowd_scenario_over_256_readers" : "runs_batch_scenario")
-            : program.gets("kind", "random") == "convoy" ? "runs_convoy_scenario" : program.gets("kind", "random") == "marathon" ? "runs_marathon_scenario" : "runs_random_program"]++;
+            : program.gets("kind", "random") == "convoy" ? (program.get("deep", 0) ? "runs_deep_convoy_scenario" : "runs_convoy_scenario") : program.gets("kind", "random") == "marathon" ? "runs_marathon_scenario" : "runs_random_program"]++;
 }
 
 std::string describe(const Json& p) {
